@@ -521,7 +521,7 @@ pub fn c04(ctx: &mut Ctx) {
     };
     let start = std::time::Instant::now();
     for i in 0..ctx.n(30000, 600_000) {
-        let t = c04_text(&mut ctx.rng);
+        let t = if i % 8 == 3 || i % 8 == 4 { if ctx.rng.chance(1, 2) { gen::comment_block(&mut ctx.rng) } else { c04_text(&mut ctx.rng) } } else { c04_text(&mut ctx.rng) };
         let w = if ctx.rng.chance(2, 3) { *ctx.rng.pick(EXTREME_WIDTHS) } else { ctx.rng.below(10) };
         let mut o = gen::options(&mut ctx.rng, w);
         if ctx.rng.chance(1, 3) {
